@@ -55,10 +55,15 @@ Proof. intros Hl Hx. unfold decode. rewrite shiftl3. cbv zeta. destruct (8 <? le
   rewrite (pick_ext ma ma'); [reflexivity|exact Hx|]. apply Forall_forall. intros i Hi. apply range_in in Hi. lia. Qed.
 
 (* ------------------------------------------------------------------ the channel description bit-fields *)
-Lemma cd_bits_sweep : forallb (fun b2 => forallb (fun b3 =>
-    (Z.land (Z.shiftr b2 4) 1 =? (b2 / 16) mod 2) && (Z.land (Z.shiftr b2 5) 7 =? b2 / 32) &&
-    (u8 (Z.lor (Z.land (Z.shiftr b3 6) 3) (Z.shiftl (Z.land b2 15) 2)) =? 4 * (b2 mod 16) + b3 / 64) &&
-    (Z.land b3 63 =? b3 mod 64) && (Z.lor b3 (Z.shiftl (Z.land b2 3) 8) =? 256 * (b2 mod 4) + b3)) (range 0 256)) (range 0 256) = true.
+(* single-octet identities (256 cases each) and the two compositions over their small domains: shifts and masks = div / mod *)
+Lemma b2_sweep : forallb (fun b2 => (Z.land (Z.shiftr b2 4) 1 =? (b2 / 16) mod 2) && (Z.land (Z.shiftr b2 5) 7 =? b2 / 32) &&
+                                    (Z.land b2 15 =? b2 mod 16) && (Z.land b2 3 =? b2 mod 4)) (range 0 256) = true.
+Proof. vm_compute. reflexivity. Qed.
+Lemma b3_sweep : forallb (fun b3 => (Z.land b3 63 =? b3 mod 64) && (Z.land (Z.shiftr b3 6) 3 =? b3 / 64)) (range 0 256) = true.
+Proof. vm_compute. reflexivity. Qed.
+Lemma maio_sweep : forallb (fun x => forallb (fun y => u8 (Z.lor y (Z.shiftl x 2)) =? 4 * x + y) (range 0 4)) (range 0 16) = true.
+Proof. vm_compute. reflexivity. Qed.
+Lemma arfcn_sweep : forallb (fun hi => forallb (fun b3 => Z.lor b3 (Z.shiftl hi 8) =? 256 * hi + b3) (range 0 256)) (range 0 4) = true.
 Proof. vm_compute. reflexivity. Qed.
 
 Lemma chan_desc_ok a b2 b3 rest c : 0 <= b2 < 256 -> 0 <= b3 < 256 ->
@@ -67,14 +72,22 @@ Proof. intros H2 H3. unfold chan_desc.
   change (rd (100 :: a :: b2 :: b3 :: rest) (0 + 1)) with (Some a).
   change (rd (100 :: a :: b2 :: b3 :: rest) (0 + 2)) with (Some b2).
   change (rd (100 :: a :: b2 :: b3 :: rest) (0 + 3)) with (Some b3). cbv iota beta zeta.
-  pose proof (forallb_range _ _ _ cd_bits_sweep b2 H2) as S1. cbv beta in S1.
-  pose proof (forallb_range _ _ _ S1 b3 H3) as S. cbv beta in S. clear S1.
+  pose proof (forallb_range _ _ _ b2_sweep b2 H2) as S2. cbv beta in S2.
+  pose proof (forallb_range _ _ _ b3_sweep b3 H3) as S3. cbv beta in S3.
   assert (E1 : Z.land (Z.shiftr b2 4) 1 = (b2 / 16) mod 2) by lia.
   assert (E2 : Z.land (Z.shiftr b2 5) 7 = b2 / 32) by lia.
-  assert (E3 : u8 (Z.lor (Z.land (Z.shiftr b3 6) 3) (Z.shiftl (Z.land b2 15) 2)) = 4 * (b2 mod 16) + b3 / 64) by lia.
-  assert (E4 : Z.land b3 63 = b3 mod 64) by lia.
-  assert (E5 : Z.lor b3 (Z.shiftl (Z.land b2 3) 8) = 256 * (b2 mod 4) + b3) by lia.
-  rewrite E1, E2, E3, E4, E5. clear S E1 E2 E3 E4 E5. unfold cd_fields.
+  assert (E3 : Z.land b2 15 = b2 mod 16) by lia.
+  assert (E4 : Z.land b2 3 = b2 mod 4) by lia.
+  assert (E5 : Z.land b3 63 = b3 mod 64) by lia.
+  assert (E6 : Z.land (Z.shiftr b3 6) 3 = b3 / 64) by lia.
+  rewrite E1, E2, E3, E4, E5, E6. clear S2 S3 E1 E2 E3 E4 E5 E6.
+  pose proof (forallb_range _ _ _ maio_sweep (b2 mod 16) ltac:(lia)) as M1. cbv beta in M1.
+  pose proof (forallb_range _ _ _ M1 (b3 / 64) ltac:(lia)) as M. cbv beta in M. clear M1.
+  pose proof (forallb_range _ _ _ arfcn_sweep (b2 mod 4) ltac:(lia)) as A1. cbv beta in A1.
+  pose proof (forallb_range _ _ _ A1 b3 H3) as A. cbv beta in A. clear A1.
+  assert (E7 : u8 (Z.lor (b3 / 64) (Z.shiftl (b2 mod 16) 2)) = 4 * (b2 mod 16) + b3 / 64) by lia.
+  assert (E8 : Z.lor b3 (Z.shiftl (b2 mod 4) 8) = 256 * (b2 mod 4) + b3) by lia.
+  rewrite E7, E8. clear M A E7 E8. unfold cd_fields.
   destruct ((b2 / 16) mod 2 =? 1) eqn:E.
   - replace ((b2 / 16) mod 2 =? 0) with false by lia. cbn [negb]. f_equal. f_equal. lia.
   - replace ((b2 / 16) mod 2 =? 0) with true by lia. cbn [negb]. f_equal. f_equal. lia. Qed.
